@@ -5,7 +5,7 @@ from harness.core import import_param
 
 param = import_param()
 
-VAL = {"None": None, "0": 0, "0.0": 0.0, "1": 1, "5": 5, "1.5": 1.5, "s": "s", "": "", "T": True, "F": False,
+VAL = {"t2": (0, 0), "t3": (1, 2, 3), "None": None, "0": 0, "0.0": 0.0, "1": 1, "5": 5, "1.5": 1.5, "s": "s", "": "", "T": True, "F": False,
        "b02": (0, 2), "b46": (4, 6), "d1": "d1", "d2": "d2"}
 BASES = {"chain": {"A": [], "B": ["A"], "C": ["B"]}, "skip": {"A": [], "B": ["A"], "C": ["B"]},
          "diamondBC": {"A": [], "B": ["A"], "C": ["A"], "D": ["B", "C"]},
@@ -58,7 +58,7 @@ def replay(beh, opts):
         return {"status": "diverge", "step": 0, "kind": kind, "msg": "[%s] %s" % (mode, msg), "expected": exp, "observed": got,
                 "tags": [], "nontrivial": True, "kf": []}
 
-    for mode in ("body", "add_parameter"):
+    for mode in ("body", "add_parameter", "add_parameter_over"):
         made = {}
         for c in sorted(decl):
             e = expect[c]
@@ -77,14 +77,16 @@ def replay(beh, opts):
                 elif mode == "body":
                     cls = type(c, pbases, {"x": make_param(d)})
                 else:
-                    cls = type(c, pbases, {})
+                    # "add_parameter_over": the class already declares the name itself (a neutral Parameter()), and
+                    # add_parameter replaces that declaration
+                    cls = type(c, pbases, {"x": param.Parameter()} if mode == "add_parameter_over" else {})
                     before = (cls.x, inspect.getattr_static(cls, "x")) if hasattr(cls, "x") else None
                     cls.param.values()
                     cls.param.add_parameter("x", make_param(d))
                 raised = None
             except Exception as ex:  # noqa: class creation wraps validation errors in RuntimeError
                 raised = ex
-                if mode == "add_parameter" and d["ty"] != "absent":
+                if mode != "body" and d["ty"] != "absent":
                     # a refused add_parameter leaves the class as it was: no class may exist whose
                     # Parameter contradicts its own constraints
                     after = (cls.x, inspect.getattr_static(cls, "x")) if hasattr(cls, "x") else None
